@@ -353,8 +353,11 @@ def run_save(recipe: dict, plan: dict | None, root: str, retry: bool = True) -> 
                     rec["violations"].append({"class": "wrote-before-refusing", "detail":
                                               [f"{len(fs.events)} fs events before the refusal", fs.shape()[:200]]})
         else:
+            unsavable = any(e.get("kind") == "lazy_fail" for e in recipe["inits"])
             if outcome == "raised" and not faulted and cfg.get("path_form") == "missingdir" and isinstance(exc, OSError):
                 pass  # the destination directory does not exist: failing is right; I1 above still applies
+            elif outcome == "raised" and unsavable and not isinstance(exc, OSError):
+                pass  # a tensor cannot be materialised: the save has to fail (with that error); I1 above still applies
             elif outcome == "raised" and not faulted:
                 rec["violations"].append({"class": "fault-free-save-failed", "detail": [f"{type(exc).__name__}: {str(exc)[:200]}"]})
             # I2 — whenever the call returned normally
@@ -407,7 +410,7 @@ def run_save(recipe: dict, plan: dict | None, root: str, retry: bool = True) -> 
                                 if d:
                                     rec["violations"].append({"class": "model-changed", "detail": ["after saving onto the first destination again"] + d[:5]})
             # I4 — bounded recovery: faults have stopped, one retry must succeed and round-trip
-            if retry and faulted and outcome == "raised" and cfg.get("path_form") != "missingdir":
+            if retry and faulted and outcome == "raised" and cfg.get("path_form") != "missingdir" and not unsavable:
                 fs2 = SimFS(sandbox, None, hide_fileno=cfg.get("backend") == "nofileno",
                             clock_steps=cfg.get("clock") or DEFAULT_CLOCK)
                 exc2 = None
